@@ -820,3 +820,102 @@ Example publisher_symlink_witness :
   exists paths, publisher_paths [47]%N ex_base name = Some paths /\ publisher_opened s paths = Some p /\
                 names s p = Some (L [46; 46; 47; 118]%N).
 Proof. cbv zeta. eexists. split; [vm_compute; reflexivity|]. split; vm_compute; reflexivity. Qed.
+
+(* ---------- a system call of an UPLOAD fails ---------- *)
+Definition fault_removed (o : op) : list str :=
+  match o with RenameElseUnlink _ _ c => [c] | RenameRetry _ b => [b] | _ => [] end.
+
+Lemma step_fault_look : forall s o q, ~ In q (fault_removed o) -> look (step_fault s o) q = look s q.
+Proof.
+  intros s o q Hq. unfold step_fault. destruct (failed s); [reflexivity|].
+  destruct o; try reflexivity; cbn [fault_removed] in Hq; unfold unlink_quiet.
+  - destruct (names s c) as [[i|t|]|]; try reflexivity; unfold look; cbn [names data fail];
+      rewrite upd_other by (intros ->; apply Hq; left; reflexivity); reflexivity.
+  - destruct (names s b) as [[i|t|]|]; try reflexivity; unfold look; cbn [names data fail];
+      rewrite upd_other by (intros ->; apply Hq; left; reflexivity); reflexivity.
+Qed.
+
+(* every operation of an upload is one of these seven *)
+Lemma upload_ops_forall : forall (P : op -> Prop) final blocks oc,
+  P (UnlinkIfLink (final ++ putfile_tmp_ext)) -> P (Open (final ++ putfile_tmp_ext)) ->
+  (forall b, P (Write (final ++ putfile_tmp_ext) b)) -> P (Close (final ++ putfile_tmp_ext)) ->
+  P (RenameElseUnlink (final ++ putfile_tmp_ext) final (final ++ putfile_tmp_ext)) -> P (Chmod final) ->
+  P (Unlink (final ++ putfile_tmp_ext)) ->
+  forall o, In o (upload_ops final blocks oc) -> P o.
+Proof.
+  intros P final blocks oc P1 P2 P3 P4 P5 P6 P7 o Ho.
+  assert (G : forall tl, (forall o', In o' tl -> P o') ->
+              In o (UnlinkIfLink (final ++ putfile_tmp_ext) :: Open (final ++ putfile_tmp_ext) ::
+                    map (Write (final ++ putfile_tmp_ext)) blocks ++ tl) -> P o).
+  { intros tl Htl Hin. destruct Hin as [<-|[<-|Hin]]; [exact P1|exact P2|].
+    apply in_app_or in Hin. destruct Hin as [Hin|Hin].
+    - apply in_map_iff in Hin. destruct Hin as (b & <- & _). apply P3.
+    - apply Htl. exact Hin. }
+  destruct oc.
+  - rewrite upload_ops_done in Ho. unfold core_ops in Ho. apply (G _) in Ho; [exact Ho|].
+    intros o' Ho'. cbn in Ho'. destruct Ho' as [<-|[<-|[<-|[]]]]; assumption.
+  - rewrite upload_ops_err in Ho. unfold err_ops in Ho. apply (G _) in Ho; [exact Ho|].
+    intros o' Ho'. cbn in Ho'. destruct Ho' as [<-|[<-|[]]]; assumption.
+  - rewrite upload_ops_badblock, upload_ops_err in Ho. unfold err_ops in Ho. apply (G _) in Ho; [exact Ho|].
+    intros o' Ho'. cbn in Ho'. destruct Ho' as [<-|[<-|[]]]; assumption.
+Qed.
+
+Lemma upload_ops_fault_removed : forall final blocks oc o q,
+  In o (upload_ops final blocks oc) -> In q (fault_removed o) -> q = final ++ putfile_tmp_ext.
+Proof.
+  intros final blocks oc o q0 Ho. revert q0.
+  apply (upload_ops_forall (fun o => forall q, In q (fault_removed o) -> q = final ++ putfile_tmp_ext) final blocks oc);
+    [intros q []|intros q []|intros b q []|intros q []|intros q [<-|[]]; reflexivity|intros q []|intros q []|exact Ho].
+Qed.
+
+(* whichever system call of an upload fails (any k, any ending of the block stream, any initial directory): the final name
+   still shows its old entry or the complete file, nothing went through a link, no other entry changed *)
+Theorem upload_fault_atomic : forall s0 final blocks oc k,
+  Inv s0 -> failed s0 = false -> followed s0 = false ->
+  followed (upload_fault k s0 final blocks oc) = false /\
+  (forall q, q <> final ++ putfile_tmp_ext -> q <> final -> look (upload_fault k s0 final blocks oc) q = look s0 q) /\
+  (look (upload_fault k s0 final blocks oc) final = look s0 final \/
+   (oc = Done /\ look (upload_fault k s0 final blocks oc) final = VFile (concat blocks))).
+Proof.
+  intros s0 final blocks oc k HI Hf Hfl.
+  assert (Hne : final <> final ++ putfile_tmp_ext) by (apply not_eq_sym, tmp_ext_neq).
+  assert (Hwrite : forall bl,
+            followed (run s0 (upload_ops final bl BadBlock)) = false /\
+            (forall q, q <> final ++ putfile_tmp_ext -> q <> final -> look (run s0 (upload_ops final bl BadBlock)) q = look s0 q) /\
+            (look (run s0 (upload_ops final bl BadBlock)) final = look s0 final \/
+             (oc = Done /\ look (run s0 (upload_ops final bl BadBlock)) final = VFile (concat blocks)))).
+  { intros bl. destruct (usession s0 final bl BadBlock (List.length (upload_ops final bl BadBlock)) HI Hf Hfl) as (_ & _ & A & B & C).
+    rewrite firstn_all in *. split; [exact A|]. split; [exact B|]. left. destruct C as [C|[C _]]; [exact C|discriminate]. }
+  assert (Hfault : followed (run_fault k s0 (upload_ops final blocks oc)) = false /\
+            (forall q, q <> final ++ putfile_tmp_ext -> q <> final -> look (run_fault k s0 (upload_ops final blocks oc)) q = look s0 q) /\
+            (look (run_fault k s0 (upload_ops final blocks oc)) final = look s0 final \/
+             (oc = Done /\ look (run_fault k s0 (upload_ops final blocks oc)) final = VFile (concat blocks)))).
+  { unfold run_fault. destruct (nth_error (upload_ops final blocks oc) k) as [o|] eqn:E.
+    - destruct (usession s0 final blocks oc k HI Hf Hfl) as (_ & _ & A & B & C).
+      assert (Ho : In o (upload_ops final blocks oc)) by (eapply nth_error_In; eauto).
+      assert (Hrm : forall q, q <> final ++ putfile_tmp_ext -> ~ In q (fault_removed o)).
+      { intros q Hq Hin. apply Hq. exact (upload_ops_fault_removed final blocks oc o q Ho Hin). }
+      split; [rewrite step_fault_followed; exact A|]. split.
+      + intros q Hq Hq2. rewrite step_fault_look by (apply Hrm; exact Hq). apply B; assumption.
+      + rewrite step_fault_look by (apply Hrm; exact Hne). exact C.
+    - destruct (usession s0 final blocks oc (List.length (upload_ops final blocks oc)) HI Hf Hfl) as (_ & _ & A & B & C).
+      rewrite firstn_all in *. auto. }
+  unfold upload_fault. destruct (nth_error (upload_ops final blocks oc) k) as [[]|]; try exact Hfault. apply Hwrite.
+Qed.
+
+(* ... but "nor a leftover temporary" does NOT survive a failing f.close(): in _done and in _err the close is not protected,
+   the unlink after it is skipped and <name>.partial stays (ENOSPC at flush).  Outside the property's quantifier (source
+   error / disconnect / crash); replayed on the code by the harness as an observation. *)
+Theorem upload_fault_leftover_refuted :
+  let s0 := mk_st [] [] in
+  let tmp := ex_final ++ putfile_tmp_ext in
+  Inv s0 /\ clean s0 /\
+  nth_error (upload_ops ex_final [[97]]%N SrcError) 3 = Some (Close tmp) /\
+  names (upload_fault 3 s0 ex_final [[97]]%N SrcError) tmp = Some (F 0%nat) /\
+  nth_error (upload_ops ex_final [[97]]%N Done) 3 = Some (Close tmp) /\
+  names (upload_fault 3 s0 ex_final [[97]]%N Done) tmp = Some (F 0%nat) /\
+  names (run s0 (upload_ops ex_final [[97]]%N SrcError)) tmp = None.
+Proof.
+  cbv zeta. split; [split; intros p; intros; discriminate|]. split; [split; reflexivity|].
+  repeat (split; [vm_compute; reflexivity|]). vm_compute. reflexivity.
+Qed.
